@@ -104,6 +104,16 @@ def detect(names):
                 return name, "DETECTED", lines[:3]
             if rc == 2:
                 return name, "ANALYSIS-BROKEN", [l for l in out.splitlines() if "BROKEN" in l][:2]
+            # silent on its own property: the other properties anchored in the touched files (a change to ParameterList.cpp written
+            # against C01 also concerns C02)
+            files = set(re.findall(r"^\+\+\+ b/(\S+)", open(os.path.join(sdir, name, "patch.diff")).read(), re.M))
+            claimed = [c["property_id"] for c in json.load(open(os.path.join(V, "MANIFEST.json")))["checks"]]
+            for pr in [json.loads(l) for l in open(os.path.join(V, "properties.jsonl"))]:
+                if pr["id"] != pid and pr["id"] in claimed and files & set(pr["anchors"]["files"]):
+                    rc, out = sh("%s %s/check %s --tier quick" % (env, V, pr["id"]))
+                    lines = [l.strip() for l in out.splitlines() if re.match(r"^  \S+ \S+:\d+ ", l)]
+                    if rc == 1 and "VIOLATION property=%s" % pr["id"] in out:
+                        return name, "DETECTED", ["(by the check of %s) " % pr["id"] + l for l in lines[:3]]
             return name, "MISSED", []
         finally:
             shutil.rmtree(tmp, ignore_errors=True)
